@@ -201,9 +201,13 @@ Proof.
     set (p := mkop cb all len 0 false).
     set (o0 := if write then with_wr ob (Some p) (o_evW ob) (o_reg ob) else with_rd ob (Some p) (o_evR ob) (o_reg ob)).
     assert (Hw0 : wobj o0 = wobj ob) by (unfold o0; destruct write; reflexivity).
-    destruct (l_disp (add_log s (LStart cb o write all len)) <? sonic_MaxCallbackDispatch).
-    + rewrite io_now_gap. rewrite gap_set_obj. cbn [add_log l_objs]. rewrite Hl. rewrite gap_add_log. lia.
-    + rewrite (schedule_gap _ o ob) by (cbn; auto; unfold o0; destruct write; reflexivity). apply gap_add_log.
+    set (s0 := note_overlap (add_log s (LStart cb o write all len)) (if write then o_evW ob else o_evR ob)).
+    assert (Hg0 : gap s0 = gap s) by reflexivity.
+    assert (Hl0 : lookup o (l_objs s0) = Some ob) by exact Hl.
+    clearbody s0.
+    destruct (l_disp s0 <? sonic_MaxCallbackDispatch).
+    + rewrite io_now_gap. rewrite gap_set_obj. rewrite Hl0. lia.
+    + rewrite (schedule_gap _ o ob) by (cbn; auto; unfold o0; destruct write; reflexivity). exact Hg0.
   - (* ACancel *)
     destruct (lookup o (l_objs s)) as [ob|] eqn:Hl; [|reflexivity]. cbn [fst].
     destruct (o_evR ob) eqn:E; [|cbn; apply gap_add_log].
@@ -297,7 +301,7 @@ Definition fresh_op (s : loop) (o : lop) : Prop :=
 Theorem lstep_gap s o : fresh_op s o -> gap (lstep s o) = gap s.
 Proof.
   intros Hf. unfold lstep.
-  set (s1 := mkloop (l_pending s) (l_disp s) (l_posts s) (l_objs s) (l_tmrs s) (l_progs s) (l_now s) (l_depth s) (l_log s) (l_fuel_out s) 300).
+  set (s1 := mkloop (l_pending s) (l_disp s) (l_posts s) (l_objs s) (l_tmrs s) (l_progs s) (l_now s) (l_depth s) (l_log s) (l_fuel_out s) 300 (l_overlap s)).
   assert (H1 : gap s1 = gap s) by reflexivity.
   destruct o; cbn [fresh_op] in Hf.
   - rewrite gap_set_obj. cbn [l_objs s1]. change (l_objs s1) with (l_objs s). rewrite Hf. unfold new_obj, wobj; cbn. lia.
